@@ -1,0 +1,129 @@
+//go:build verif
+
+package redisemu
+
+// Contracts for C19, snapshot files (dataStorePersist.go).
+//
+// The file system is ghost state. A snapshot stream is a header announcing
+// Count records followed by records, each a key header and one payload whose
+// Go type is chosen by the key header's type flag. The ghost variables below
+// track the stream being written (save) or read (load); the os and gob
+// functions are trusted stubs whose contracts update them:
+//
+//   fsLivePath   the name a restart will load (set on entry of save)
+//   fsLiveOK     the file under the live name is a complete snapshot
+//   fsOpenPath   the name of the file created by this save
+//   fsHdrs       stream headers appended (0 or 1)
+//   fsHdrCount   the record count the header announced
+//   fsKeys       key headers appended / decoded
+//   fsVals       payloads appended / decoded
+//   fsFlags      type flags of the last key header
+//   fsBroken     an append failed: the stream is incomplete
+//   fsClosed     the created file was closed
+//   fsReplaced   the live name was atomically replaced by the created file
+//
+// Crash atomicity is the obligation crash.create / crash.rename: no file
+// system effect may make the live name refer to anything but a complete
+// snapshot; every such effect is a call of one of the stubs, so the requires
+// clauses of the stubs are checked at every crash point.
+
+//@ ghost fsLivePath string
+//@ ghost fsLiveOK bool
+//@ ghost fsOpenPath string
+//@ ghost fsHdrs int
+//@ ghost fsHdrCount int
+//@ ghost fsKeys int
+//@ ghost fsVals int
+//@ ghost fsFlags bitflags
+//@ ghost fsBroken bool
+//@ ghost fsClosed bool
+//@ ghost fsReplaced bool
+
+//@ uf liveUpTo(s []*redisDictItem, n int) int
+//@ axiom forall s []*redisDictItem :: liveUpTo(s, 0) == 0
+//@ axiom forall s []*redisDictItem, n int :: n >= 0 && n < len(s) ==> liveUpTo(s, n+1) == liveUpTo(s, n) + ite(s[n] != nil, 1, 0)
+//@ axiom forall s []*redisDictItem, n int :: n >= 0 && n <= len(s) ==> liveUpTo(s, n) >= 0 && liveUpTo(s, n) <= n
+
+// redisDict.count is the number of occupied buckets (assumed representation
+// invariant of the dictionary; its mutators are not verified against it)
+//@ pred dictCounted(rd *redisDict) = rd.count == liveUpTo(rd.buckets, len(rd.buckets))
+
+//@ func os.Create
+//@ trusted
+//@ requires [C19] crash.create: name != fsLivePath
+//@ modifies ghost.fsOpenPath ghost.fsHdrs ghost.fsKeys ghost.fsVals ghost.fsBroken ghost.fsClosed
+//@ effect fsOpenPath = name
+//@ effect fsHdrs = 0
+//@ effect fsKeys = 0
+//@ effect fsVals = 0
+//@ effect fsBroken = false
+//@ effect fsClosed = false
+
+//@ func encoding/gob.NewEncoder
+//@ trusted
+//@ modifies
+//@ ensures result != nil
+
+//@ func encoding/gob.Encoder.Encode
+//@ trusted
+//@ requires [C19] stream.open: !fsClosed
+//@ requires [C19] stream.header.first: istype(e, persistHeader) <==> fsHdrs == 0
+//@ requires [C19] stream.alternate: istype(e, persistKeyHeader) ==> fsKeys == fsVals
+//@ requires [C19] stream.payload.follows: !istype(e, persistHeader) && !istype(e, persistKeyHeader) ==> fsKeys == fsVals + 1
+//@ requires [C19] stream.payload.string: !istype(e, persistHeader) && !istype(e, persistKeyHeader) && flagHasOne(fsFlags, FLAG_KEY_TYPE_STRING) ==> istype(e, []byte)
+//@ requires [C19] stream.payload.hash: !istype(e, persistHeader) && !istype(e, persistKeyHeader) && !flagHasOne(fsFlags, FLAG_KEY_TYPE_STRING) && flagHasOne(fsFlags, FLAG_KEY_TYPE_HASH_TABLE) ==> istype(e, map[string]string)
+//@ requires [C19] stream.payload.set: !istype(e, persistHeader) && !istype(e, persistKeyHeader) && !flagHasOne(fsFlags, FLAG_KEY_TYPE_STRING|FLAG_KEY_TYPE_HASH_TABLE) && flagHasOne(fsFlags, FLAG_KEY_TYPE_SET) ==> istype(e, map[string]struct{})
+//@ requires [C19] stream.payload.list: !istype(e, persistHeader) && !istype(e, persistKeyHeader) && !flagHasOne(fsFlags, FLAG_KEY_TYPE_STRING|FLAG_KEY_TYPE_HASH_TABLE|FLAG_KEY_TYPE_SET) ==> flagHasOne(fsFlags, FLAG_KEY_TYPE_LIST) && istype(e, [][]byte)
+//@ modifies ghost.fsHdrs ghost.fsHdrCount ghost.fsKeys ghost.fsVals ghost.fsFlags ghost.fsBroken
+//@ effect if result != nil : fsBroken = true
+//@ effect if istype(e, persistHeader) : fsHdrs = fsHdrs + 1
+//@ effect if istype(e, persistHeader) : fsHdrCount = int(unbox(e, persistHeader).Count)
+//@ effect if istype(e, persistKeyHeader) : fsKeys = fsKeys + 1
+//@ effect if istype(e, persistKeyHeader) : fsFlags = unbox(e, persistKeyHeader).Flags
+//@ effect if !istype(e, persistHeader) && !istype(e, persistKeyHeader) : fsVals = fsVals + 1
+
+//@ func os.File.Sync
+//@ trusted
+//@ modifies
+
+//@ func os.File.Close
+//@ trusted
+//@ modifies ghost.fsClosed
+//@ effect fsClosed = true
+
+//@ func os.Rename
+//@ trusted
+//@ requires [C19] crash.rename: newpath == fsLivePath ==> oldpath == fsOpenPath && fsClosed && !fsBroken && fsHdrs == 1 && fsKeys == fsHdrCount && fsVals == fsHdrCount
+//@ modifies ghost.fsLiveOK ghost.fsReplaced
+//@ effect if result == nil && newpath == fsLivePath : fsReplaced = true
+
+//@ func os.Remove
+//@ trusted
+//@ requires [C19] crash.remove: name != fsLivePath
+//@ modifies
+
+//@ func redisDict.toStringTable
+//@ trusted
+//@ pure
+
+//@ func redisDict.toKeyTable
+//@ trusted
+//@ pure
+
+//@ func dataStore.save
+//@ prop C19
+//@ safetyprop none
+//@ requires ds != nil && ds.data != nil && dictSized(ds.data)
+//@ requires free counted: dictCounted(ds.data)
+//@ requires free stored: all(j, 0, len(ds.data.buckets), ds.data.buckets[j] == nil || (istype(ds.data.buckets[j].value, *storeKey) && unbox(ds.data.buckets[j].value, *storeKey) != nil && skWF(unbox(ds.data.buckets[j].value, *storeKey))))
+//@ requires live: fsLiveOK
+//@ ghostentry fsLivePath = fileName
+//@ ghostentry fsReplaced = false
+//@ modifies ghost.fsLivePath ghost.fsLiveOK ghost.fsOpenPath ghost.fsHdrs ghost.fsHdrCount ghost.fsKeys ghost.fsVals ghost.fsFlags ghost.fsBroken ghost.fsClosed ghost.fsReplaced
+//@ loop 1 invariant fsHdrs == 1 && !fsBroken && !fsClosed && err == nil
+//@ loop 1 invariant fsHdrCount == ds.data.count
+//@ loop 1 invariant fsKeys == fsVals && fsKeys == liveUpTo(ds.data.buckets, ri1)
+//@ loop 1 modifies ghost.fsKeys ghost.fsVals ghost.fsFlags ghost.fsBroken
+//@ ensures [C19] crash.atomic: fsLiveOK
+//@ ensures [C19] complete: err == nil ==> fsHdrs == 1 && fsKeys == ds.data.count && fsVals == ds.data.count && fsHdrCount == ds.data.count && !fsBroken
+//@ ensures [C19] replaced: err == nil <==> fsReplaced
